@@ -294,6 +294,38 @@ M=[
 		}
 	})
 }"""),
+ ("M35-routine-later-start-forgets-chain","C04","routine/routine.go","""		r.exitedCh = prevExitedCh
+		k.routine = r""","""		k.routine = r"""),
+ ("M36-routine-setroutine-nil-forgets-chain","C04","routine/routine.go","""		k.removedExitedCh = prevExitedCh
+		if wasReset {""","""		if wasReset {"""),
+ ("M37-keyed-reset-forgets-chain","C07","keyed/keyed.go","""	v.exitedCh = prevExitedCh
+	k.routines[key] = v""","""	k.routines[key] = v"""),
+ ("M38-promise-container-await-always-retries-on-canceled","C11","promise/container.go","""		val, valErr := prom.AwaitWithCancelCh(ctx, waitCh)
+		if valErr == context.Canceled && ctx.Err() == nil && isClosed(waitCh) {""","""		val, valErr := prom.AwaitWithCancelCh(ctx, waitCh)
+		if valErr == context.Canceled && ctx.Err() == nil {"""),
+ ("M40-ccall-counts-nil-functions-as-started","C17","ccall/ccall.go","""			if fn == nil {
+				continue
+			}
+			running++
+			started++""","""			started++
+			if fn == nil {
+				continue
+			}
+			running++"""),
+ ("M42-csync-writer-cancel-broadcast-wrong-condition","C02","csync/rwmutex.go","""					if m.writeWaiting == 0 {
+						broadcast()
+					}""","""					if m.writeWaiting > 0 {
+						broadcast()
+					}"""),
+ ("M44-state-getrunning-outside-inner-lock","C13","routine/state.go","""			rcBroadcast()
+			broadcast()
+		})
+		running = s.rc.getRunningLocked()
+	})""","""			rcBroadcast()
+			broadcast()
+		})
+	})
+	running = s.rc.getRunningLocked()"""),
 ]
 def main():
     out='/verif/mutants'
